@@ -80,6 +80,12 @@ _BOOL_ATOM = re.compile(r"^(eq|ne|lt|le|gt|ge|and|or|not)\(")
 def atom(name, args):
     if name == "ite" and len(args) == 3 and is_form(args[0]) and len(args[0]) == 1 and ONE not in args[0] and list(args[0].values())[0] == 1 and _BOOL_ATOM.match(list(args[0])[0]) and args[1] == {ONE: Fraction(1)} and args[2] in ({}, {ONE: Fraction(0)}):
         return args[0]  # `if c { 1. } else { 0. }` is the number a comparison already stands for (c as i32 as f32)
+    if name == "ite" and len(args) == 3 and is_form(args[1]) and is_form(args[2]):
+        # sign normal form: -ite(c; a; b) and ite(c; -a; -b) are the same value; the first non-zero branch leads with +
+        lead = args[1] if args[1] else args[2]
+        if lead and lead[sorted(lead, key=str)[0]] < 0:
+            pos = atom("ite", [args[0], L._scale(args[1], Fraction(-1)), L._scale(args[2], Fraction(-1))])
+            return None if pos is None else L._scale(pos, Fraction(-1))
     strs = [canon(a) for a in args]
     if any(s == "?" for s in strs):
         return None
@@ -746,6 +752,8 @@ class Evaluator:
                 parts.append(v)
             else:
                 parts.append(vals[v] if v is not None and v < len(vals) else None)
+        if all(isinstance(x, str) or (isinstance(x, tuple) and x and x[0] == "str") for x in parts):
+            return ("str", "".join(x if isinstance(x, str) else x[1] for x in parts))  # nothing left to fill in
         return ("fmt", parts)
 
     def _join(self, c, t, e):
@@ -986,6 +994,19 @@ class Evaluator:
             return args[0]
         if name in ("unwrap_or", "unwrap_or_else", "unwrap", "expect", "unwrap_or_default") and recv is not None and rty.startswith("std::result::Result") and not (not is_form(recv) and recv[0] in ("err", "none", "some")):
             return recv  # a Result is represented by its Ok payload
+        if name == "rev" and recv is not None and not is_form(recv) and recv[0] == "tup" and "Iterator" not in rty and not rty.startswith("("):
+            return ("tup", list(reversed(recv[1])))
+        if name == "rev" and recv is not None and not is_form(recv) and recv[0] == "tup" and ("Iter" in rty or "iter" in rty):
+            return ("tup", list(reversed(recv[1])))
+        if name == "fold" and recv is not None and not is_form(recv) and recv[0] == "tup" and len(n["args"]) == 2 and ("Iter" in rty or "iter" in rty or "Rev<" in rty):
+            # over a list whose items are known: the closure applied from the first item to the last
+            cl = args[1] if isinstance(args[1], tuple) and args[1] and args[1][0] == "closure" else n["args"][1]
+            acc = args[0]
+            for item in recv[1]:
+                acc = self._apply(cl, [acc, item], env, st)
+                if acc is None:
+                    return None
+            return acc
         if name in ("find_map", "find") and recv is not None and not is_form(recv) and recv[0] == "tup" and len(n["args"]) == 1:
             # over a list whose items are known: the first item for which the closure yields Some / true
             cl = args[0] if isinstance(args[0], tuple) and args[0] and args[0][0] == "closure" else n["args"][0]
